@@ -15,6 +15,7 @@
   every sort of the code total.
 -/
 import YkModel.Res
+import YkModel.Reload
 namespace Yk
 namespace Pre
 open Res
@@ -48,6 +49,7 @@ structure PQ where
   off : Int                  -- priority.offset
   delay : Int                -- preemption.delay (s)
   managed : Bool
+  own : Reload.Props := []   -- the queue's OWN configured property texts (the four settings above derive from them)
   deriving Repr, DecidableEq
 
 structure PAlloc where
@@ -685,6 +687,150 @@ def wellFormedB (w : World) : Bool :=
         | some q' => q'.path != q.path || j == i) &&
       (!hasPrefixDot (pathOf w w.ask.q) q.path || (chain w w.ask.q).contains i)) &&
   decide (w.ask.q < n)
+
+/-! ### effective queue settings, computed from the configured property texts -/
+
+/-- what the configuration says about one queue: its parent, whether it is a leaf, and its OWN property texts -/
+structure QConf where
+  parent : Option Nat
+  leaf : Bool
+  own : Reload.Props
+  deriving Repr, DecidableEq
+
+/-- sq.properties: the queue's own properties merged over the FILTERED properties of its parent (NewConfiguredQueue:
+    applyConf, mergeProperties(parent.getProperties())); the root keeps its own -/
+def mergedPropsAux (qs : List QConf) : Nat → Nat → Reload.Props
+  | 0, _ => []
+  | f + 1, i =>
+    match qs[i]? with
+    | none => []
+    | some q =>
+      match q.parent with
+      | none => q.own
+      | some p => Reload.mergeProps q.own (mergedPropsAux qs f p)
+
+def mergedProps (qs : List QConf) (i : Nat) : Reload.Props := mergedPropsAux qs (i + 1) i
+
+/-- UpdateQueueProperties on the merged properties -/
+def effSettings (qs : List QConf) (i : Nat) : Reload.Settings :=
+  match qs[i]? with
+  | some q => Reload.deriveSettings q.leaf (mergedProps qs i)
+  | none => Reload.deriveSettings false []
+
+/-- the rule stated directly on the configuration: the preemption.policy text of the nearest queue on the path
+    (the queue itself first) that configures one -/
+def nearestPolicyAux (qs : List QConf) : Nat → Nat → Option String
+  | 0, _ => none
+  | f + 1, i =>
+    match qs[i]? with
+    | none => none
+    | some q =>
+      match q.own.get? "preemption.policy" with
+      | some v => some v
+      | none => match q.parent with
+        | none => none
+        | some p => nearestPolicyAux qs f p
+
+/-- a property text reads `disabled` (the conversion is case-insensitive) -/
+def readsDisabled (o : Option String) : Bool := match o with | some v => Reload.lower v == "disabled" | none => false
+
+/-- preemption is disabled for queue i: the nearest configured preemption.policy on its path reads `disabled`
+    (in any spelling) -/
+def inheritedDisabled (qs : List QConf) (i : Nat) : Bool := readsDisabled (nearestPolicyAux qs (i + 1) i)
+
+/-- the configuration view of a world's queues -/
+def confOf (w : World) : List QConf := w.queues.map (fun q => { parent := q.parent, leaf := q.leaf, own := q.own })
+
+def polNum (s : String) : Nat := if s == "fence" then 1 else if s == "disabled" then 2 else 0
+
+/-- the four settings of queue i the preemption code reads, as UpdateQueueProperties derives them from the merged
+    property texts: (preemption policy, priority fence, priority offset, preemption delay in s) -/
+def derivedSettings (w : World) (i : Nat) : Nat × Bool × Int × Int :=
+  let st := effSettings (confOf w) i
+  (polNum st.preempt, st.prioFence, st.prioOffset, ((st.preemptDelay / 1000000000 : Nat) : Int))
+
+/-- every queue of the world carries the settings its configuration derives -/
+def settingsDerived (w : World) : Bool :=
+  (List.range w.queues.length).all (fun i => match w.queues[i]? with
+    | some q => (q.ppol, q.prFence, q.off, q.delay) == derivedSettings w i
+    | none => true)
+
+/-! ### quota change preemption: when it is due -/
+
+/-- timing state of one queue (seconds on a virtual clock): the maximum and quota.preemption.delay in force
+    (0 = none), the scheduled start, and — ghost — the time at which the pending start was first scheduled -/
+structure QuotaT where
+  max : ORes
+  delay : Int
+  start : Option Int
+  base : Option Int
+  deriving Repr, DecidableEq
+
+/-- ApplyConf (new maximum, new delay) followed by UpdateQueueProperties → setPreemptionTime, at time `now`
+    (quota preemption not running) -/
+def setPreemptionTime (alloc : Res) (s : QuotaT) (newMax : ORes) (newDelay : Int) (now : Int) : QuotaT :=
+  let s' : QuotaT := { s with max := newMax, delay := newDelay }
+  let cleared : QuotaT := { s' with start := none, base := none }
+  let shifted : QuotaT := if s.delay != newDelay then { s' with start := s.start.map (· + (newDelay - s.delay)) } else s'
+  if newDelay == 0 then cleared else
+  if isZero newMax then cleared else
+  if strictlyOnlyExisting newMax (some alloc) true then cleared else
+  if equals s.max newMax false then
+    (match s.start with
+     | none => if s.delay == 0 && newDelay > 0 then { s' with start := some (now + newDelay), base := some now } else s'
+     | some _ => shifted)
+  else if strictlyGreaterThan s.max newMax then
+    (match s.start with
+     | some _ => shifted
+     | none => { s' with start := some (now + newDelay), base := some now })
+  else if strictlyGreaterThan newMax s.max then
+    (match s.start with
+     | some _ => shifted
+     | none => s')
+  else s'
+
+/-- tryAcquirePreemption at time `now` followed by the (synchronous) preemption run: new state and whether it fired -/
+def tryAcquire (managed : Bool) (alloc : Res) (s : QuotaT) (now : Int) : QuotaT × Bool :=
+  if !managed then (s, false) else
+  if strictlyOnlyExisting s.max (some alloc) true then ({ s with start := none, base := none }, false) else
+  match s.start with
+  | none => (s, false)
+  | some t => if now < t then (s, false) else ({ s with start := none, base := none }, true)
+
+inductive QuotaStep where
+  | conf (max : ORes) (delay : Int)
+  | advance (d : Int)
+  | try
+  deriving Repr, DecidableEq
+
+/-- one step of a quota history: (state, now) → (state, now, fired) -/
+def quotaStep (managed : Bool) (alloc : Res) (st : QuotaT × Int) : QuotaStep → (QuotaT × Int) × Bool
+  | .conf m d => ((setPreemptionTime alloc st.1 m d st.2, st.2), false)
+  | .advance d => ((st.1, st.2 + d), false)
+  | .try => let r := tryAcquire managed alloc st.1 st.2; ((r.1, st.2), r.2)
+
+/-- a quota history from `st` -/
+def runQuota (managed : Bool) (alloc : Res) (st : QuotaT × Int) (steps : List QuotaStep) : QuotaT × Int :=
+  steps.foldl (fun st s => (quotaStep managed alloc st s).1) st
+
+/-- C08 timing: a scheduled start is exactly (time the pending lowering was first scheduled) + (delay in force) -/
+def timingOK (s : QuotaT) : Bool :=
+  match s.start, s.base with
+  | some t, some b => t == b + s.delay
+  | none, none => true
+  | _, _ => false
+
+/-- the two maxima are comparable (equal, lower or higher as a vector): the cases setPreemptionTime handles -/
+def comparableMax (a b : ORes) : Bool := equals a b false || strictlyGreaterThan a b || strictlyGreaterThan b a
+
+/-- the configuration step does not change the delay of a pending start across an incomparable change of the maximum -/
+def goodStep (s : QuotaT) : QuotaStep → Bool
+  | .conf m d => s.start.isNone || comparableMax s.max m || s.delay == d
+  | _ => true
+
+def goodHist (managed : Bool) (alloc : Res) : QuotaT × Int → List QuotaStep → Bool
+  | _, [] => true
+  | st, s :: t => goodStep st.1 s && goodHist managed alloc (quotaStep managed alloc st s).1 t
 
 /-! ### required node preemption -/
 
